@@ -343,10 +343,15 @@ def argsRange : RExpr → Option Rg
   | .lambda _ a _ _ _ _ _ _ => some a
   | _ => none
 
-/-- Listed finding `lambda-empty-arguments-range`, reproduced by the model: the empty `Arguments` node of
-    `lambda: 1` has the range of the whole lambda, 0..9, not an empty extent. -/
+/-- Former finding `lambda-empty-arguments-range`, now a regression example (repaired in /repo: "the empty parameter
+    list of a lambda is ranged as the empty text after the keyword"): the empty `Arguments` node of `lambda: 1` is the
+    empty range 6..6 right behind the keyword (the lambda itself 0..9), and the tree passes `rangesOk`.  Before the
+    repair the `Arguments` node had the range of the whole lambda, 0..9. -/
 theorem lambda_empty_arguments_witness :
-    ((parseRExpression lambdaToks).map fun e => (e.range, argsRange e)) = some ((0, 9), some (0, 9)) := by decide
+    ((parseRExpression lambdaToks).map fun e => (e.range, argsRange e)) = some ((0, 9), some (6, 6)) ∧
+    ((parseRExpression lambdaToks).map fun e =>
+      rangesOk [108, 97, 109, 98, 100, 97, 58, 32, 49] (e.toTree "body" false)) = some true := by
+  constructor <;> decide
 
 /-- `'a' f'{b}' 'c'` -/
 def concatToks : List RTok :=
